@@ -21,6 +21,13 @@ pub struct ReplaceDesc {
 }
 
 #[derive(Serialize, Deserialize, Clone, Debug, PartialEq, Default)]
+pub struct ConversionDesc {
+    /// the schema that is replaced wherever it occurs, exactly as written
+    pub schema: Value,
+    pub type_name: String,
+}
+
+#[derive(Serialize, Deserialize, Clone, Debug, PartialEq, Default)]
 pub struct SettingsDesc {
     #[serde(default)]
     pub struct_builder: bool,
@@ -34,6 +41,8 @@ pub struct SettingsDesc {
     pub patches: Vec<PatchDesc>,
     #[serde(default)]
     pub replaces: Vec<ReplaceDesc>,
+    #[serde(default)]
+    pub conversions: Vec<ConversionDesc>,
 }
 
 #[derive(Serialize, Deserialize, Clone, Debug, PartialEq)]
